@@ -403,7 +403,9 @@ func (C06) Run(t *testing.T, scAny any) *sim.Outcome {
 		checkLinks(out, sc.Op, sb.Target, ctxs)
 		for _, p := range sortedKeys(after) {
 			if within("target", p) {
-				hist = append(hist, p+"="+after[p].String())
+				// link targets are rewritten to absolute paths below the target: keep the history free of
+				// the sandbox's own location
+				hist = append(hist, p+"="+strings.ReplaceAll(after[p].String(), sb.Jail, "$JAIL"))
 			}
 		}
 	default:
